@@ -600,9 +600,25 @@ func Run(rep *core.Report, args *core.Args, sel Select) {
 	}
 	close(ch)
 	wg.Wait()
+	statMu.Lock()
+	rep.Extra["faults_fault_points_by_outcome"] = outcomes
+	statMu.Unlock()
 }
 
 var statMu sync.Mutex
+
+// outcomes counts, per operation, what the fault points led to: the operation reported the error, the node
+// stopped itself, or the fault was tolerated (the operation succeeded). Written into the evidence.
+var outcomes = map[string]map[string]int{}
+
+func countOutcome(op, what string) {
+	statMu.Lock()
+	if outcomes[op] == nil {
+		outcomes[op] = map[string]int{}
+	}
+	outcomes[op][what]++
+	statMu.Unlock()
+}
 
 // sweep runs the reference execution of one case and then one execution per fault point.
 func sweep(rep *core.Report, sel Select, c Case, l sim.Layout, variant string) {
@@ -668,6 +684,14 @@ func one(rep *core.Report, sel Select, c Case, l sim.Layout, variant string, k i
 	}
 	rep.Eval(1)
 	exited := len(w.node.Exits()) > 0
+	switch {
+	case exited:
+		countOutcome(c.Op, "node-stopped-itself")
+	case o.err != nil:
+		countOutcome(c.Op, "error-reported")
+	default:
+		countOutcome(c.Op, "tolerated")
+	}
 	if exited {
 		// the node stopped itself: what counts is what a restart finds
 		w.checkRestart(rep, v, before, refAfter, true)
